@@ -142,6 +142,13 @@ def run(ctx):
                 rt.judge(ctx, m, proto, vals, data, r, ep.name, outfmt,
                          "%s %s input, partition %s, capacity %d" % (proto.name, infmt, (list(parts.values())[0] if parts else "-"), cap),
                          {"partition": parts, "capacity": cap})
+        if infmt == "bin" and cap in (3, 64):
+            ep = rt.CppEndpoint(m, "plain", bufs=[cap] * nstreams, empty_batches=True)
+            r = ep.copy(proto.name, "bin", "bin", data)
+            ctx.ev()
+            ctx.count("bin->bin.cap%d.empty-batches" % cap)
+            rt.judge(ctx, m, proto, vals, data, r, ep.name, "bin", "%s bin input, partition %s, capacity %d, writer called with empty batches around every batch" % (
+                proto.name, (list(parts.values())[0] if parts else "-"), cap), {"partition": parts, "capacity": cap})
         ctx.case((proto.name, len(data), str(parts), cap, infmt))
 
     pmap(one, jobs)
